@@ -352,6 +352,15 @@ ADDED8 = {
     "C18": "After each of seven library helpers has run against an NCP answering 0x00 / 0x93 / 0x70 (every version) the whole 2 x 256 conversion table is judged again.",
     "C19": "While an unanswered keep-alive waits, a callback stamped with its own sequence byte may arrive (still a failed feed).",
 }
+ADDED9 = {
+    "C04": "The in-flight host frame takes every number 0..7.",
+    "C08": "Up to nine identical bad frames precede the frame under test on the same handler.",
+    "C09": "A slow-booting NCP (RSTACK at 0.3 / 0.7 / 0.98 of the reset timeout, boot restarted by a further RST) is enumerated.",
+    "C10": "Each failure is also injected so that its announcement arrives in the same read as the preceding frame.",
+    "C11": "Acknowledged traffic after an earlier reset request must still succeed.",
+    "C19": "The counter read is answered with 0..200 counters.",
+    "C20": "Coroutine calls that wait for what a later call provides must all complete; ten non-callable attribute values are refused.",
+}
 CFG_NOTE = {pid: " Configured values named by the statement (command / reset / operation timeouts, attempts, tolerated failures) are read from the tree under test (vlib/cfg.py)."
             for pid in ("C01", "C05", "C06", "C08", "C09", "C10", "C11", "C12", "C17", "C19")}
 RUNNER_NOTE = " In every run each fourth worker shard executes with debug logging switched on (into a null handler)."
@@ -371,6 +380,8 @@ def main():
             text = text + " " + ADDED7[pid]
         if pid in ADDED8:
             text = text + " " + ADDED8[pid]
+        if pid in ADDED9:
+            text = text + " " + ADDED9[pid]
         note = note + CFG_NOTE.get(pid, "")
         note = note + RUNNER_NOTE
         checks.append({
